@@ -1,6 +1,7 @@
 import PgVerif.Model.LR
 import PgVerif.Model.Decode
 import PgVerif.Model.GLR
+import PgVerif.Proofs.GLRSound
 import PgVerif.Model.Forest
 import PgVerif.Spec.SPPF
 import PgVerif.Model.Pos
@@ -211,6 +212,8 @@ structure St where
   env : ActEnv := { prods := [], termUser := fun _ => false }
   ntNames : List (List Nat) := []
   tNames : List (List Nat) := []
+  /-- final state of the last `glr` command that answered with a forest -/
+  glrS : Option GLR.GState := none
 
 def natList (l : List Nat) : String := " ".intercalate (l.map toString)
 
@@ -455,17 +458,26 @@ def handle (st : St) (cmd : String) (args : List Nat) : St × String :=
     -- the forest: sym s e prod n (sym s e)*
     match st.T, st.inp, args with
     | some T, some inp, [fuel, consume, lexdis] =>
-      (st, match GLR.parseGLR st.g T inp (consume != 0) (lexdis != 0) fuel with
+      (match GLR.parseGLR st.g T inp (consume != 0) (lexdis != 0) fuel with
         | .forest s =>
           let alts := GLR.reachableAlts T s ((s.links.size + 2) * (s.links.size + 2) * 8 + 1000)
-          "glr forest " ++ natList (alts.flatMap (fun a =>
+          ({ st with glrS := some s }, "glr forest " ++ natList (alts.flatMap (fun a =>
             [encSym a.1.1, a.1.2.1, a.1.2.2, a.2.1, a.2.2.length] ++
-              a.2.2.flatMap (fun k => [encSym k.1, k.2.1, k.2.2])))
-        | .syntaxError => "glr syntax"
-        | .orderSensitive => "glr ordersens"
-        | .crash => "glr crash"
-        | .outOfFuel => "glr fuel")
+              a.2.2.flatMap (fun k => [encSym k.1, k.2.1, k.2.2]))))
+        | .syntaxError => ({ st with glrS := none }, "glr syntax")
+        | .orderSensitive => ({ st with glrS := none }, "glr ordersens")
+        | .crash => ({ st with glrS := none }, "glr crash")
+        | .outOfFuel => ({ st with glrS := none }, "glr fuel"))
     | _, _, _ => (st, "bad-glr")
+  | "glrtree" =>
+    -- glrtree <tree...>: is the tree packed under a root link of the forest of the last `glr` command?
+    -- (hypothesis of C01_tree_found_in_glr_model_forest_is_parse)
+    match st.glrS with
+    | some s =>
+      (match rdTree.run args with
+       | some (t, _) => (st, if GLR.forestHasTree s t then "glrtree 1" else "glrtree 0")
+       | none => (st, "bad-tree"))
+    | none => (st, "glrtree none")
   | "skipidem" =>
     -- skipidem: hypothesis of C01_glr_model_sound on the current input (layout skipping idempotent)
     match st.inp with
